@@ -83,7 +83,7 @@ def c11(ctx):
             reported += 1
             ctx.violation({"kind": "dns-c11", "case": e, "observed": bad, "how": "vh-dns"})
         # time proportional to size
-        if r.get("micros", 0) > 200000 + 50 * r.get("item_bytes", 0) and reported < 3:
+        if r.get("micros", 0) > 1000000 + 50 * r.get("item_bytes", 0) and reported < 3:   # generous linear budget (wall time)
             reported += 1
             ctx.violation({"kind": "dns-c11-slow", "case": e, "micros": r.get("micros"), "item_bytes": r.get("item_bytes")})
     ctx.sample({"kind": "dns-entry", "case": ents[len(ents) // 2], "sections": res[len(ents) // 2].get("sections")})
